@@ -176,6 +176,13 @@ def rules(vb: VB, features, group):
             ("i32", "validate(greater = 1, greater_or_equal = 1)"), ("f64", "validate(less = 5.0, less_or_equal = 9.0)")]
     for inner, attrs in dups:
         add(decl("T", inner, attrs), R, "R5:duplicate:" + attrs)
+    # two bounds on the same side, one of them an expression, nothing on the other side
+    kpre = "const K: i32 = 18;\n"
+    for attrs in ("validate(greater = K, greater_or_equal = 21)", "validate(greater_or_equal = 21, greater = K)", "validate(greater = 21, greater_or_equal = K)", "validate(less = K, less_or_equal = 5)",
+                  "validate(less_or_equal = K, less = 5)", "validate(greater = K, greater_or_equal = K + 1)", "validate(greater = K, greater_or_equal = 21, less = 100)", "validate(less = 5, less_or_equal = K, greater = 0)"):
+        add(decl("T", "i32", attrs, pre=kpre), R, "R5:duplicate:same-side-bounds-with-expression:" + attrs)
+    for attrs in ("validate(greater = F, greater_or_equal = 2.5)", "validate(less_or_equal = F, less = 2.5)", "validate(finite, greater = 2.5, greater_or_equal = F)"):
+        add(decl("T", "f64", attrs, pre="const F: f64 = 1.5;\n"), R, "R5:duplicate:same-side-bounds-with-expression:" + attrs)
     add(decl("T", "i32", "derive(Debug, Debug)"), U, "R5:duplicate-trait (harmless)")
     add(decl("T", "i32", "validate(greater = 1), validate(less = 5)"), R, "R5:repeated-validate-block")
     add(decl("T", "String", "sanitize(trim), sanitize(lowercase)"), R, "R5:repeated-sanitize-block")
@@ -326,6 +333,11 @@ def rules(vb: VB, features, group):
         add(decl("T", "String", 'validate(regex = "(")'), R, "R12:invalid-regex-literal")
         add(decl("T", "String", 'validate(regex = "[z-a]")'), R, "R12:invalid-regex-literal")
         add(decl("T", "String", 'validate(regex = "^a+$")'), A, "R12:neighbour")
+        # well-formed but beyond the size limit the generated `Regex::new` will apply at run time
+        add(decl("T", "String", 'validate(regex = r"^\\w{1,300}$")'), R, "R12:regex-too-big")
+        add(decl("T", "String", 'validate(regex = r"(\\pL{50}){60}")'), R, "R12:regex-too-big")
+        add(decl("T", "String", 'validate(not_empty, regex = r"^\\w{1,300}$", len_char_max = 5)'), R, "R12:regex-too-big")
+        add(decl("T", "String", 'validate(regex = r"^\\w{1,30}$")'), A, "R12:neighbour:regex-within-size-limit")
         add(decl("T", "String", "validate(regex = RX)", pre="static RX: ::std::sync::LazyLock<::regex::Regex> = ::std::sync::LazyLock::new(|| ::regex::Regex::new(\"a\").unwrap());\n"), A, "R12:neighbour:static-path")
         add(decl("T", "String", "validate(regex = 5)"), R, "R12:regex-not-a-string-or-path")
         # the same rule in every position among sibling validators (a check that only looks at the first / last item must not pass)
